@@ -9,6 +9,9 @@ Transliterates, from /repo/ear/core:
       `get_excluded` -> `allocentric.get_excluded` -> `allo_channel_lock_handler.handle(position, lock, excluded)`
       -> `AllocentricPanner(positions[~excluded]).handle(position)` -> scatter -> power sum / gain / split
                                                                             -> `renderCartLock`
+  * `GainCalc.render`, polar block format, no extent, no divergence:
+      `ego_channel_lock_handler.handle(position, lock)` (no exclusion mask) -> `polar_extent_panner.handle`
+      -> `zone_exclusion_handler.handle(gains, zones)` -> gain / split       -> `renderPolarLock`
   * `screen_common.compensate_position`                                    -> `compensatePosition`
 The allocentric panner itself (`AllocentricPanner.handle`) is `Earverif.GainCalc.alloHandle`
 (`Model/GainCalc.lean`, the C01 model), reused unchanged.
@@ -84,7 +87,13 @@ def lockedPosition {α : Type} (allo : List (P3 α)) (p : P3 α) : LockOut → O
 (no extent, no divergence, no screenRef / screenEdgeLock; `p` is the position after
 `coord_trans`, i.e. already clipped to the cube).  Returns the final exclusion mask, the
 outcome of the lock, and the (direct, diffuse) gains without LFE rows.
-`none`: a `while` of `inside_angle_range` ran out of fuel, the lock raised, or the panner did. -/
+`none`: a `while` of `inside_angle_range` ran out of fuel, the lock raised, or the panner did.
+
+Domain: the real objects always have one nominal position, one allocentric position and one
+priority per channel (`spks.length = allo.length = prio.length`, all built from the same
+`layout.without_lfe`); the definition has no guard for other shapes (a missing priority reads as
+`prio.getD i 0`, which numpy would reject with an IndexError), and every theorem about it carries
+`spks.length = allo.length` where it matters; the tables satisfy all three (`tables_groups_ok`). -/
 def renderCartLock {α : Type} [GainCalc.Scalar α] [ScalarSqrt α] (fuel : Nat)
     (spks : List (Spk α)) (allo : List (P3 α)) (prio : List Nat) (zones : List (Zone α))
     (p : P3 α) (lock : Option (Option α)) (gain diffuse : α) :
@@ -101,6 +110,41 @@ def renderCartLock {α : Type} [GainCalc.Scalar α] [ScalarSqrt α] (fuel : Nat)
   (alloHandle sub.length st q.x q.y q.z).bind fun g =>
   -- gains_full[~excluded] = gains; sqrt(dot([1.0], gains_full**2)); nan_to_num; gain; split
   some (final, lk, renderCart final [g] [Scalar.one] gain diffuse)
+
+/-! ### The polar path of `GainCalc.render` for a point object with channel lock and zone exclusion -/
+
+/-- **The polar path for a point object with optional channel lock and zone exclusion**, in the
+order the real `render` uses (no extent, no divergence, no screenRef / screenEdgeLock; `p` is
+the position after `coord_trans`, i.e. `cart(azimuth, elevation, distance)`):
+
+  1. `position = self.ego_channel_lock_handler.handle(position, channelLock)` — *no exclusion
+     mask is passed* (`excluded=None` ⇒ `np.zeros(n, bool)`), so the lock chooses among ALL
+     loudspeakers, by unweighted distance to `layout.norm_positions` (`norm`);
+  2. `extent_pan = self.polar_extent_panner.handle` on the (possibly locked) position, one
+     diverged position with weight `1.0` — the panner is the parameter `pan`;
+  3. `gains = self.zone_exclusion_handler.handle(gains, zoneExclusion)`: the zone downmix is
+     applied to the panned gains (`renderPolar`), so the energy of a locked loudspeaker that is
+     itself excluded is moved to its highest-priority non-excluded group;
+  4. `nan_to_num`, gain, direct/diffuse split.
+
+Returns the zone mask, the outcome of the lock and the (direct, diffuse) gains without LFE rows.
+`none`: the lock raised, the panner returned `None`/raised, a `while` of `inside_angle_range`
+ran out of fuel, or `downmix_for_excluded` asserted. -/
+def renderPolarLock {α : Type} [ScalarSqrt α] (fuel : Nat)
+    (spks : List (Spk α)) (norm : List (P3 α)) (prio : List Nat) (groups : List (List (List Nat)))
+    (zones : List (Zone α)) (pan : P3 α → Option (List α))
+    (p : P3 α) (lock : Option (Option α)) (gain diffuse : α) :
+    Option (List Bool × LockOut × (List α × List α)) :=
+  let n := norm.length
+  -- position = self.ego_channel_lock_handler.handle(position, block_format.channelLock)
+  let lk := lockHandle false norm prio (List.replicate n false) p lock
+  (lockedPosition norm p lk).bind fun q =>
+  -- gains_for_each_pos = [extent_pan(position, 0, 0, 0)]; gains = sqrt(dot([1.0], gains_for_each_pos**2))
+  (pan q).bind fun g =>
+  -- gains = self.zone_exclusion_handler.handle(gains, zoneExclusion); nan_to_num; gain; split
+  (getExcluded fuel spks zones).bind fun zmask =>
+  (renderPolar n groups zmask [g] [Scalar.one] gain diffuse).bind fun out =>
+  some (zmask, lk, out)
 
 /-! ### `screen_common.compensate_position` (used by the Cartesian screen scaling only) -/
 
